@@ -6,6 +6,7 @@ import (
 	"fmt"
 	"math/big"
 	"testing"
+	"time"
 
 	eckeygen "github.com/bnb-chain/tss-lib/v2/ecdsa/keygen"
 	edkeygen "github.com/bnb-chain/tss-lib/v2/eddsa/keygen"
@@ -115,6 +116,9 @@ func runC03(c c03Case) ev.Outcome {
 		}
 	}
 	net, ids := sim.NewKeygen(cfg)
+	if len(c.GenPre) > 0 {
+		net.CallBudget = 3 * time.Hour // pre-parameter generation happens inside Start
+	}
 	c.Sched.apply(net)
 	if c.Bad != "" {
 		// inadmissible key set: every Start refuses, nothing is emitted, no key data
